@@ -158,7 +158,8 @@ def evaluate(plan, o, prefix="C13"):
             v.append(viol(prefix + ".S1" + sfx, s[0], "DISCONNECTED reported before any connection existed"))
             continue
         c = cur[-1]
-        explained = (c["fault"] is not None and c["fault"][0] < s[0]) or c["entry"].get("busy")
+        overlong = any(sg[0] == "garbage" and len(sg[1]) > 2 * 65536 for sg in (c["entry"].get("stream") or []))
+        explained = (c["fault"] is not None and c["fault"][0] < s[0]) or c["entry"].get("busy") or overlong
         if not explained:
             v.append(viol(prefix + ".S1" + sfx, s[0], "DISCONNECTED reported at t=%.3f although no fault was injected on "
                           "connection %d (spurious disconnect)" % (s[1], c["id"])))
